@@ -137,8 +137,49 @@ def reslice_event(c1, c2, rng):
     return ev
 
 
+def history_events(h, rng):
+    """One TLC history of inspections replayed on ONE Potential object; every Build / Project in it is compared with a fresh
+    potential and with the sum of the per-element potentials (additivity)."""
+    import abtem
+    from ase import Atoms
+    cell = (4.0, 5.0, 4.5)
+    th = (1.0, 2.0, 1.5)
+    pos = [(0.5, 0.5, 0.0), (1.0, 3.0, 0.4), (2.0, 1.0, 1.0), (3.0, 4.0, 2.2), (1.5, 2.5, 3.0), (2.5, 0.5, 3.2), (3.5, 3.5, 4.0), (0.7, 4.1, 2.9)]
+    syms = ["Si", "C", "C", "Si", "Si", "C", "C", "Si"]
+    atoms = Atoms(syms, positions=pos, cell=cell, pbc=True)
+    Z = {"A": 14, "B": 6}
+    mk = lambda a: abtem.Potential(a, gpts=(16, 20), slice_thickness=th, projection="infinite")
+    out = []
+    try:
+        fresh_build = np.asarray(mk(atoms).build(lazy=False).array, dtype=np.float64)
+        parts_build = sum(np.asarray(mk(atoms[atoms.numbers == z]).build(lazy=False).array, dtype=np.float64) for z in Z.values())
+        fresh_proj = np.asarray(mk(atoms).project().array, dtype=np.float64)
+        pot = mk(atoms)
+        sliced = pot.get_sliced_atoms()
+        for i, st in enumerate(h):
+            a = st["a"]
+            last = None if st["last"] < 0 else st["last"]
+            if a == "QueryAll":
+                sliced.get_atoms_in_slices(st["first"], last)
+            elif a == "QueryElement":
+                sliced.get_atoms_in_slices(st["first"], last, atomic_number=Z[st["element"]])
+            elif a == "GenerateWindow":
+                list(pot.generate_slices(st["first"], st["last"]))
+            elif a == "Build":
+                got = np.asarray(pot.build(lazy=False).array, dtype=np.float64)
+                err = max(relerr(got, fresh_build), relerr(got, parts_build)) if got.shape == fresh_build.shape else 2.0
+                out.append({"k": "additive", "history": [s["a"] + ":" + str(s["element"]) for s in h[: i + 1]], "raised": False, "err_ppb": ppb(err), "projection": "infinite"})
+            elif a == "Project":
+                got = np.asarray(pot.project().array, dtype=np.float64)
+                err = relerr(got, fresh_proj) if got.shape == fresh_proj.shape else 2.0
+                out.append({"k": "reslice", "history": [s["a"] + ":" + str(s["element"]) for s in h[: i + 1]], "raised": False, "err_ppb": ppb(err), "projection": "infinite"})
+    except Exception as ex:
+        out.append({"k": "additive", "history": [s["a"] for s in h], "raised": True, "exc": f"{type(ex).__name__}: {ex}"[:300], "err_ppb": 0})
+    return out
+
+
 def tags_for(ev, clauses):
-    return {"clauses": sorted(clauses), "k": ev["k"], "unit": ev.get("unit"), "accumulate": ev.get("accumulate"), "projection": ev.get("projection")}
+    return {"clauses": sorted(clauses), "k": ev["k"], "unit": ev.get("unit"), "accumulate": ev.get("accumulate"), "projection": ev.get("projection"), "after_history": "history" in ev}
 
 
 def judge(ctx: Ctx, evs):
@@ -168,7 +209,7 @@ def run(ctx: Ctx):
                 "at every quarter-lattice height (boundaries, just above, just below in lattice terms), for length units 1.0, 0.5, 0.3 "
                 "and 0.1, thicknesses/heights formed by multiplication and by repeated addition, plus long uniform slicings (20-40 slices of "
                 "0.1 / 0.3 / 0.9); additivity over random splits and over splits of an atomic column (several atoms per slice and pixel) "
-                "(infinite and finite projection); re-slicing pairs; non-trivial = more than one slice")
+                "(infinite and finite projection); re-slicing pairs; histories of inspections (slice-window queries for all / one element, projection, window generation) on one Potential object followed by a build, enumerated by TLC from SlicingHist.tla; non-trivial = more than one slice")
     r = ctx.design_check("SlicingImpl", cfg_text=CFG.format(h=4 if quick else 6), label="SlicingImpl=>Slicing", workers=1, timeout=3000)
     self_test(ctx)
     cases = [json.loads(tlc.tla_value_to_py(s)[1]) for s in r.printed("CASE")]
@@ -201,6 +242,27 @@ def run(ctx: Ctx):
         for j in range(min(len(lst) - 1, 6 if quick else 40)):
             evs.append(reslice_event(lst[j], lst[-1 - j], rng))
             ctx.case(("reslice", h, j))
+    # histories of inspections on one Potential object, then build / project
+    hcfg = ("SPECIFICATION Spec\nCONSTANTS\n  MaxLen = %d\n  Emit = TRUE\n  CacheIgnoresElement = FALSE\nINVARIANT BuildContainsEveryAtom\n"
+            "INVARIANT EmitHistory\nCHECK_DEADLOCK FALSE\n" % (3 if quick else 4))
+    rh = ctx.design_check("SlicingHist", cfg_text=hcfg, label="histories: the build does not depend on earlier inspections", workers=1)
+    hists = [json.loads(tlc.tla_value_to_py(s)[1]) for s in rh.printed("HIST")]
+    hists.sort(key=lambda h: json.dumps(h, sort_keys=True))
+    rng.shuffle(hists)
+    if quick:
+        seen, first, rest = set(), [], []
+        for h in hists:
+            k = tuple(st["a"] for st in h)
+            (rest if k in seen else first).append(h)
+            seen.add(k)
+        hists = first + rest[:40]
+    nh = 0
+    for h in hists:
+        hev = history_events(h, rng)
+        evs.extend(hev)
+        nh += 1
+        ctx.case(("history", json.dumps(h, sort_keys=True)))
+    ctx.notes["histories"] = nh
     ctx.exhaustive = True
     for e in evs[:1] + evs[-1:]:
         ctx.sample(e)
